@@ -1086,6 +1086,100 @@ func r7(c *core.Ctx, p *Parser) {
 		c.Undecidedf(rule, "filtered-only-on-verdict", p.Loop.Pos(), "no filter counter site in the parser loop")
 	}
 	VerdictHonoured(c, p, rule)
+	dbVerdictEverySelect(c, p, rule)
+}
+
+// dbVerdictEverySelect: the database verdict is a function of the database the
+// source selected. Every parsed SELECT must therefore reach the assignment
+// `flag = filter.FilterDB(n)`; skipping it is only sound when the skipped case
+// provably has the same verdict. A guard `n != v` with a variable v that is
+// also assigned something other than the parsed number (the fixed target
+// database) is not such a case: v does not always name the source's database.
+func dbVerdictEverySelect(c *core.Ctx, p *Parser, rule string) {
+	info := p.Info
+	const key = "db-verdict/every-select"
+	var set *ast.AssignStmt
+	var nArg ast.Expr
+	core.Inspect(p.Loop.Body, func(m ast.Node) bool {
+		as, ok := m.(*ast.AssignStmt)
+		if !ok || len(as.Lhs) != len(as.Rhs) {
+			return true
+		}
+		for _, r := range as.Rhs {
+			if call, ok := ast.Unparen(r).(*ast.CallExpr); ok && core.IsFunc(core.CalleeFunc(info, call), "redis-shake/filter", "", "FilterDB") && len(call.Args) == 1 {
+				set, nArg = as, call.Args[0]
+			}
+		}
+		return true
+	})
+	if set == nil {
+		return // (a helper evaluates it: the expanded view is judged)
+	}
+	// where the number is parsed: the definition of the argument
+	o, ok := SoleOrigin(info, p.Fn.Decl, nArg)
+	if !ok || o.Stmt == nil {
+		return
+	}
+	from, ok := p.G.Find(o.Stmt)
+	if !ok {
+		return
+	}
+	isSet := func(n ast.Node) bool { return n == ast.Node(set) }
+	w := p.G.Path(cfgq.Query{From: from, After: true, Avoid: isSet, Target: cfgq.Or(p.IsDecode, p.IsSend)})
+	if w == nil {
+		c.Okf(rule, key, set.Pos(), "every parsed SELECT re-evaluates the database filter")
+		return
+	}
+	// the guards around the assignment
+	nObj := types.Object(nil)
+	if id, ok := ast.Unparen(nArg).(*ast.Ident); ok {
+		nObj = core.ObjOf(info, id)
+	}
+	path := core.PathTo(p.Loop.Body, set)
+	for i := 0; i+1 < len(path); i++ {
+		ifs, ok := path[i].(*ast.IfStmt)
+		if !ok || path[i+1] != ast.Node(ifs.Body) || nObj == nil {
+			continue
+		}
+		be, ok := ast.Unparen(ifs.Cond).(*ast.BinaryExpr)
+		if !ok || be.Op != token.NEQ {
+			continue
+		}
+		var other ast.Expr
+		switch {
+		case IsObj(info, nObj)(be.X):
+			other = be.Y
+		case IsObj(info, nObj)(be.Y):
+			other = be.X
+		}
+		oid, ok := ast.Unparen(other).(*ast.Ident)
+		if other == nil || !ok {
+			continue
+		}
+		keyed := false
+		for _, d := range Origins1(info, p.Fn.Decl, oid) {
+			if d.Zero || d.Expr == nil || d.Stmt == nil {
+				continue
+			}
+			if IsObj(info, nObj)(d.Expr) {
+				// recorded next to the verdict, under the same guard
+				keyed = keyed || ifs.Body.Pos() <= d.Stmt.Pos() && d.Stmt.End() <= ifs.Body.End()
+				continue
+			}
+			if _, isConst := core.IntConst(info, d.Expr); isConst && !(p.Loop.Pos() <= d.Stmt.Pos() && d.Stmt.End() <= p.Loop.End()) {
+				continue // the initial value before the loop
+			}
+			keyed = false
+			c.Check(rule, key, set.Pos(), false, fmt.Sprintf("the database filter is only re-evaluated when the selected number differs from `%s`, but `%s` does not always hold the database the source selected last (`%s`): after that assignment a source SELECT of that number is taken for 'no change' and the verdict of the previously selected database stays in force, so commands issued in a filtered source database are forwarded (or commands of an allowed one dropped)", oid.Name, oid.Name, c.Src(d.Stmt)), w...)
+			return
+		}
+		if keyed && len(path) > 0 {
+			// the only guard on the way? (one level: the verdict is cached under the number it was computed for)
+			c.Okf(rule, key, set.Pos(), "the database filter is re-evaluated whenever the selected number differs from `%s`, which always holds the number the verdict was computed for", oid.Name)
+			return
+		}
+	}
+	c.Undecidedf(rule, key, set.Pos(), "a parsed SELECT can reach the next command without re-evaluating filter.FilterDB; the rule cannot show that the skipped case keeps the verdict")
 }
 
 // VerdictHonoured: the converse of filtered-only-on-verdict (keys verdict-honoured/<enqueue>#k under rule). A drop flag is a
